@@ -217,9 +217,24 @@ func verifExpvarGet(m *expvar.Map, key string) expvar.Var { return verifStatInt 
 
 // ---------------------------------------------------------------- the database (model DataProvider)
 
+// verifFaults selects which failures an entry injects (every enabled one is a choice point of
+// every round).
+type verifFaults struct {
+	lastIndex bool // LastIndex returns an error
+	temp      bool // the local temp file cannot be created
+	provide   bool // Provide fails before writing / after a partial write
+	rewind    bool // Provide succeeds after an internal partial attempt and a rewind
+	currentID bool // CurrentID returns an error
+	upload    bool // Upload returns an error
+}
+
+var verifAllFaults = verifFaults{true, true, true, true, true, true}
+var verifLeanFaults = verifFaults{lastIndex: true, provide: true, currentID: true, upload: true}
+
 type verifProv struct {
-	idx   uint64 // index of the last change made to the database
-	round int    // number of the round being run (names of nondets)
+	idx    uint64 // index of the last change made to the database
+	round  int    // number of the round being run (names of nondets)
+	faults verifFaults
 
 	// outcome of this round's calls (false when the call was not made)
 	lastFailed bool
@@ -235,6 +250,29 @@ type verifProv struct {
 	imgRound  int    // round it was produced in (-1: none)
 }
 
+// verifPick is a concrete choice among the enabled alternatives; alternative 0 is always "no
+// fault". It returns the tag of the chosen alternative.
+func verifPick(name string, tags ...string) string {
+	return tags[verifChoice(name, len(tags))]
+}
+
+func verifOpts(base string, more ...string) []string {
+	out := []string{base}
+	for _, m := range more {
+		if m != "" {
+			out = append(out, m)
+		}
+	}
+	return out
+}
+
+func verifIf(on bool, tag string) string {
+	if on {
+		return tag
+	}
+	return ""
+}
+
 // verifWrites lets a symbolic number of writes (possibly none) reach the database: the index
 // moves to any value that is not smaller. (A fresh value constrained by >= instead of
 // "old + delta" keeps every obligation free of 64-bit adders.)
@@ -246,11 +284,11 @@ func (p *verifProv) verifWrites(name string) {
 
 func (p *verifProv) LastIndex() (uint64, error) {
 	p.nLast++
-	switch verifChoice(verifName("lastIndex", p.round), 3) {
-	case 1:
+	switch verifPick(verifName("lastIndex", p.round), verifOpts("ok", verifIf(p.faults.lastIndex, "fail"), verifIf(p.faults.temp, "temp"))...) {
+	case "fail":
 		p.lastFailed = true
 		return 0, errors.New("verif: LastIndex failed")
-	case 2:
+	case "temp":
 		p.tempFails = true
 		verifSetTempFail(true)
 	}
@@ -263,18 +301,19 @@ func (p *verifProv) Provide(w io.WriteSeeker) error {
 	// writes keep arriving: the image contains whatever is committed when it is taken
 	p.verifWrites("writesBeforeProvide")
 	img := verifImage(p.idx)
-	switch verifChoice(verifName("provide", p.round), 4) {
-	case 1: // a first internal attempt dies half-way, the provider rewinds and writes again
+	switch verifPick(verifName("provide", p.round), verifOpts("ok", verifIf(p.faults.rewind, "rewind"),
+		verifIf(p.faults.provide, "fail"), verifIf(p.faults.provide, "partial"))...) {
+	case "rewind": // a first internal attempt dies half-way, the provider rewinds and writes again
 		if _, err := w.Write(img[:5]); err != nil {
 			return err
 		}
 		if _, err := w.Seek(0, io.SeekStart); err != nil {
 			return err
 		}
-	case 2:
+	case "fail":
 		p.provFailed = true
 		return errors.New("verif: Provide failed")
-	case 3:
+	case "partial":
 		w.Write(img[:6])
 		p.provFailed = true
 		return errors.New("verif: Provide failed after a partial write")
@@ -303,7 +342,6 @@ type verifClient struct {
 	// observations
 	nCurrentID  int
 	nUpload     int
-	nUploadOK   int
 	lastLabel   string
 	lastContent []byte
 	lastReadErr error
@@ -327,9 +365,8 @@ func (c *verifClient) verifChooseRemote() {
 
 func (c *verifClient) CurrentID(ctx context.Context) (string, error) {
 	c.nCurrentID++
-	c.p.verifWrites("writesBeforeCurrentID")
 	c.verifChooseRemote()
-	if verifChoice(verifName("currentID", c.p.round), 2) == 1 {
+	if verifPick(verifName("currentID", c.p.round), verifOpts("ok", verifIf(c.p.faults.currentID, "fail"))...) == "fail" {
 		return "", errors.New("verif: CurrentID failed")
 	}
 	c.idAnswered, c.answeredID = true, c.remoteID
@@ -338,6 +375,7 @@ func (c *verifClient) CurrentID(ctx context.Context) (string, error) {
 
 func (c *verifClient) Upload(ctx context.Context, r io.Reader, id string) error {
 	c.nUpload++
+	// the database keeps changing while the round is busy with the storage service
 	c.p.verifWrites("writesBeforeUpload")
 	c.lastLabel = id
 	c.lastContent = nil
@@ -354,13 +392,12 @@ func (c *verifClient) Upload(ctx context.Context, r io.Reader, id string) error 
 			break
 		}
 	}
-	if verifChoice(verifName("upload", c.p.round), 2) == 1 {
+	if verifPick(verifName("upload", c.p.round), verifOpts("ok", verifIf(c.p.faults.upload, "fail"))...) == "fail" {
 		c.uploadFailed = true
 		return errors.New("verif: Upload failed")
 	}
 	c.remoteChosen = true
 	c.remoteID = id
-	c.nUploadOK++
 	return nil
 }
 
@@ -374,14 +411,14 @@ type verifOracle struct {
 	lastOK uint64 // label of the last Upload that returned nil (0: none so far)
 
 	// snapshot taken at the start of a round
-	idx0      uint64
-	nUpload0  int
-	nLast0    int
+	idx0     uint64
+	nUpload0 int
+	nLast0   int
 }
 
-func verifNewSystem(interval time.Duration) *verifOracle {
+func verifNewSystem(interval time.Duration, faults verifFaults) *verifOracle {
 	verifFiles = nil
-	p := &verifProv{imgRound: -1, lastRound: -1}
+	p := &verifProv{imgRound: -1, lastRound: -1, faults: faults}
 	p.idx = verifU64("startIndex")
 	c := &verifClient{p: p}
 	// NewUploader without its os.Stderr logger
@@ -410,9 +447,10 @@ func (o *verifOracle) check() {
 	verifAssert("C37-one-LastIndex-per-round", p.nLast-o.nLast0 == 1)
 	verifAssert("C37-at-most-one-upload-per-round", uploads <= 1)
 
+	// "the database has changed since the last successful automatic upload"
 	changed := o.idx0 > o.lastOK
-	// first round of this uploader's life and the storage service answered that it already
-	// holds exactly this index: nothing has changed since the last successful upload
+	// no successful upload yet in this uploader's life and the storage service answered that it
+	// already holds exactly this index: nothing has changed since the last successful upload
 	sameAsRemote := false
 	if o.lastOK == 0 && c.idAnswered {
 		sameAsRemote = c.answeredID == verifID(o.idx0)
@@ -422,18 +460,17 @@ func (o *verifOracle) check() {
 
 	if !changed && !p.lastFailed {
 		verifReach("unchanged-round")
-		verifAssert("C37-no-change-uploads-nothing", uploads == 0)
 	}
 	if sameAsRemote && changed {
 		verifReach("skipped-by-remote-id")
-		verifAssert("C37-same-remote-id-uploads-nothing", uploads == 0)
 	}
-	if localFailure {
-		verifAssert("C37-no-upload-without-a-complete-image", uploads == 0)
+	if uploads == 1 && !expect {
+		// name the broken clause
+		verifAssert("C37-no-change-uploads-nothing", changed)
+		verifAssert("C37-same-remote-id-uploads-nothing", !sameAsRemote)
+		verifAssert("C37-no-upload-without-a-complete-image", !localFailure)
 	}
-	if expect {
-		verifAssert("C37-change-is-uploaded", uploads == 1)
-	}
+	verifAssert("C37-change-is-uploaded", uploads == 1 || !expect)
 	verifAssert("C37-upload-iff-due", (uploads == 1) == expect)
 
 	if uploads == 1 {
@@ -458,26 +495,47 @@ func (o *verifOracle) check() {
 
 // ---------------------------------------------------------------- entries
 
-// VerifC37Rounds: K upload rounds (direct calls of upload) interleaved with writes and failures.
+// VerifC37Step: ONE round from an arbitrary uploader state (inductive step). The state of an
+// Uploader between rounds is its lastIndex; the invariant carried from round to round is
+// "lastIndex == label of the last successful upload" (asserted at the end of every round, true
+// initially), and the database index is never below an index it reported earlier.
+func VerifC37Step() {
+	verifPanicsAreViolations()
+	o := verifNewSystem(time.Minute, verifAllFaults)
+	ctx := &verifCtx{done: make(chan struct{})}
+	o.lastOK = verifU64("lastUploaded")
+	o.u.lastIndex = o.lastOK
+	verifAssume(o.p.idx >= o.lastOK)
+	o.begin(0)
+	err := o.u.upload(ctx)
+	o.check()
+	if o.c.uploadFailed {
+		verifAssert("C37-failed-upload-is-reported", err != nil)
+	}
+}
+
+// VerifC37Rounds: K upload rounds of a fresh uploader (direct calls of upload) interleaved with
+// writes and failures; a failed round is retried by the next one.
 func VerifC37Rounds() {
 	verifPanicsAreViolations()
-	o := verifNewSystem(time.Minute)
+	o := verifNewSystem(time.Minute, verifLeanFaults)
 	ctx := &verifCtx{done: make(chan struct{})}
 	K := 3
 	if verifTier() == 1 {
 		K = 4
 	}
-	hadFailure := false
+	failedBefore := false
 	for r := 0; r < K; r++ {
 		o.begin(r)
 		err := o.u.upload(ctx)
 		o.check()
 		if o.c.uploadFailed {
 			verifAssert("C37-failed-upload-is-reported", err != nil)
-			hadFailure = true
-		} else if hadFailure && o.c.nUpload-o.nUpload0 == 1 {
+		}
+		if failedBefore && o.c.nUpload-o.nUpload0 == 1 && !o.c.uploadFailed {
 			verifReach("retried-after-failure")
 		}
+		failedBefore = o.c.uploadFailed
 	}
 }
 
@@ -486,7 +544,7 @@ func VerifC37Rounds() {
 func VerifC37Ticker() {
 	verifPanicsAreViolations()
 	const interval = 10 * time.Second
-	o := verifNewSystem(interval)
+	o := verifNewSystem(interval, verifFaults{upload: true})
 	ctx := &verifCtx{done: make(chan struct{})}
 	defer ctx.cancel()
 	enabled := true
@@ -538,7 +596,6 @@ func VerifC37Ticker() {
 				verifReach("tick-without-round")
 			}
 			verifAssert("C37-no-round-without-enabled-tick", o.p.nLast == o.nLast0 && o.c.nUpload == o.nUpload0)
-			verifSetTempFail(false)
 		}
 		closed := false
 		select {
@@ -551,7 +608,7 @@ func VerifC37Ticker() {
 }
 
 func VerifC37Twin() {
-	o := verifNewSystem(time.Minute)
+	o := verifNewSystem(time.Minute, verifFaults{})
 	ctx := &verifCtx{done: make(chan struct{})}
 	o.begin(0)
 	verifAssume(o.idx0 > 0)
